@@ -18,6 +18,12 @@
 (*                 may have used exactly everything that was reserved.     *)
 (* Mut = {"NoClosingReserve"} drops that second reservation (the seeded    *)
 (* change C06-d); TLC shows the state it breaks: spare = 1 + el.           *)
+(* The quoter is resumed from sp, the amount of the string done so far,    *)
+(* which each interrupted call ADDS to; Mut = {"ResumeOverwrite"} stores   *)
+(* the last call's amount instead (the seeded change C03-e: harmless for   *)
+(* one regrowth, since sp starts at 0, and wrong from the second on - part *)
+(* of the string is emitted again); TLC shows Result broken exactly when a *)
+(* string outgrows the buffer twice.                                       *)
 (*                                                                         *)
 (* Growing replaces the array (the caller's array is abandoned, never      *)
 (* written again): cap' >= what is needed.  `out` is the number of bytes   *)
@@ -40,11 +46,11 @@ Shapes == { <<Quo(0, 0)>>, <<Quo(1, 1)>>, <<Quo(3, 4)>>, <<Quo(1, 6)>>, <<Quo(2,
             <<Fix(4)>>, <<Fix(1), Fix(5), Fix(1), Fix(2)>>, <<Fix(1), Quo(1, 1), Fix(1), Fix(4), Fix(1)>>,
             <<Num(1, 6)>>, <<Fix(1), Num(2, 6), Fix(1), Num(1, 6), Fix(1)>>, <<Fix(1), Quo(1, 2), Fix(1), Num(3, 6), Fix(1)>> }
 
-VARIABLES shape, pc, ph, len, cap, left, pre, cap0, regrown
-vars == <<shape, pc, ph, len, cap, left, pre, cap0, regrown>>
+VARIABLES shape, pc, ph, len, cap, left, pre, cap0, regrown, sp
+vars == <<shape, pc, ph, len, cap, left, pre, cap0, regrown, sp>>
 
 Init == /\ shape \in Shapes /\ pre \in 0..MaxPre /\ cap0 \in 0..MaxCap /\ pre <= cap0
-        /\ pc = 1 /\ ph = "reserve" /\ len = pre /\ cap = cap0 /\ left = 0 /\ regrown = 0
+        /\ pc = 1 /\ ph = "reserve" /\ len = pre /\ cap = cap0 /\ left = 0 /\ regrown = 0 /\ sp = 0
 
 Item == shape[pc]
 Max(a, b) == IF a > b THEN a ELSE b
@@ -57,25 +63,27 @@ Done == pc > Len(shape)
 Step ==
   /\ ~Done
   /\ \/ /\ Item.t = "fix" /\ ph = "reserve"
-        /\ Reserve(Item.r) /\ ph' = "write" /\ UNCHANGED <<len, left, pc>>
+        /\ Reserve(Item.r) /\ ph' = "write" /\ UNCHANGED <<len, left, pc, sp>>
      \/ /\ Item.t = "fix" /\ ph = "write"
-        /\ len' = len + Item.n /\ pc' = pc + 1 /\ ph' = "reserve" /\ UNCHANGED <<cap, left, regrown>>
+        /\ len' = len + Item.n /\ pc' = pc + 1 /\ ph' = "reserve" /\ UNCHANGED <<cap, left, regrown, sp>>
      \/ /\ Item.t = "quo" /\ ph = "reserve"
-        /\ Reserve(Item.r) /\ ph' = "open" /\ UNCHANGED <<len, left, pc>>
+        /\ Reserve(Item.r) /\ ph' = "open" /\ UNCHANGED <<len, left, pc, sp>>
      \/ /\ Item.t = "quo" /\ ph = "open"
-        /\ len' = len + 1 /\ left' = Item.el /\ ph' = "quote" /\ UNCHANGED <<cap, pc, regrown>>
+        /\ len' = len + 1 /\ left' = Item.el /\ sp' = 0 /\ ph' = "quote" /\ UNCHANGED <<cap, pc, regrown>>
      \/ /\ Item.t = "quo" /\ ph = "quote"            \* the quoter writes what fits into the spare room
         /\ LET room == cap - len IN
            IF left <= room
-           THEN len' = len + left /\ left' = 0 /\ ph' = "close" /\ UNCHANGED <<cap, regrown>>
-           ELSE /\ len' = len + room /\ left' = left - room
+           THEN len' = len + left /\ left' = 0 /\ ph' = "close" /\ UNCHANGED <<cap, regrown, sp>>
+           ELSE /\ len' = len + room
+                /\ sp' = IF "ResumeOverwrite" \in Mut THEN room ELSE sp + room     \* where the next call resumes
+                /\ left' = Item.el - sp'
                 /\ cap' = Max(2 * cap, cap + 1) /\ regrown' = regrown + 1 /\ ph' = "quote"
         /\ UNCHANGED pc
      \/ /\ Item.t = "quo" /\ ph = "close"
         /\ IF "NoClosingReserve" \in Mut THEN UNCHANGED <<cap, regrown>> ELSE Reserve(1)
-        /\ ph' = "closing" /\ UNCHANGED <<len, left, pc>>
+        /\ ph' = "closing" /\ UNCHANGED <<len, left, pc, sp>>
      \/ /\ Item.t = "quo" /\ ph = "closing"
-        /\ len' = len + 1 /\ pc' = pc + 1 /\ ph' = "reserve" /\ UNCHANGED <<cap, left, regrown>>
+        /\ len' = len + 1 /\ pc' = pc + 1 /\ ph' = "reserve" /\ UNCHANGED <<cap, left, regrown, sp>>
   /\ UNCHANGED <<shape, pre, cap0>>
 
 Next == Step \/ (Done /\ UNCHANGED vars)
